@@ -273,9 +273,11 @@ def tests(tier):
 
 
 def own_tests(tier):
+    # (bash32a: the 32-bit bash-f back end, selected at build time, under the same sanitizer - the only other back end that changes state sizes)
+    CFGB = CFG + (("bash32a",) if CFG == ("asan",) else ())
     return [
-        Test("bash", S_BASH, run_bash, {"quick": 5000, "thorough": 50000}, CFG),
-        Test("prg", S_PRG, run_prg, {"quick": 5000, "thorough": 50000}, CFG),
+        Test("bash", S_BASH, run_bash, {"quick": 5000, "thorough": 50000}, CFGB),
+        Test("prg", S_PRG, run_prg, {"quick": 5000, "thorough": 50000}, CFGB),
         Test("prg_inv", S_PRGINV, run_prg_inv, {"quick": 4000, "thorough": 40000}, CFG),
         Test("brng", S_BRNG, run_brng, {"quick": 6000, "thorough": 60000}, CFG),
         Test("botp", S_BOTP, run_botp, {"quick": 6000, "thorough": 60000}, CFG),
